@@ -143,6 +143,15 @@ func c05Shapes(c *chk.Ctx, rng interface{ Intn(int) int }) []*spec.Spec {
 		s.Conns = append(s.Conns, &spec.Conn{From: "src.out", To: "slow.in"})
 		out = append(out, s)
 	}
+	// a FileSplitter whose input lies in a sub-directory (the component has a temp directory of its own)
+	{
+		s := &spec.Spec{Name: "splitsub", MaxTasks: 3, Sources: map[string]string{"data/raw/numbers.txt": "1\n2\n3\n4\n5\n", "plain.txt": "a\nb\nc\n"}}
+		s.Procs = append(s.Procs, &spec.Proc{Name: "src", Kind: spec.KFileSource, Files: []string{"data/raw/numbers.txt", "plain.txt"}},
+			&spec.Proc{Name: "SP", Kind: spec.KSplitter, Lines: 2},
+			&spec.Proc{Name: "use", Kind: spec.KCmd, Cmd: spec.BuildCmd("use", in, o1, nil, nil, nil), Outs: []*spec.Out{{Port: "out", Pattern: "used/{i:in|basename}.use.out"}}})
+		s.Conns = append(s.Conns, &spec.Conn{From: "src.out", To: "SP.file"}, &spec.Conn{From: "SP.split_file", To: "use.in"})
+		out = append(out, s)
+	}
 	// RunToRegex with two patterns, and with one pattern that matches two processes
 	for k, targets := range [][]string{{"^c1$", "^c2$"}, {"^c[0-9]$"}, {"^c2$", "^c1$", "^c"}} {
 		s := mk(fmt.Sprintf("runtoregex%d", k), 3)
